@@ -1,7 +1,8 @@
 /-
   Oracle commands for C17 (streaming / non-streaming / OpenAI-compatible responses).
 
-    run <ep> <stream 0|1> <raw 0|1> <tools 0|1> <usage 0|1> <promptLen> <end> <chunks> <parse>
+    run <variant> <ep> <stream 0|1> <raw 0|1> <tools 0|1> <usage 0|1> <promptLen> <end> <chunks> <parse>
+      variant: 0 pinned /repo; bit 0 = F17a/b repaired (ChatHandler tools), bit 1 = F17c repaired (openai stream errors)
       ep     : gen | chat | oachat | oacmpl | cgen | cchat
       end    : ok | err:<hex>                         (return value of Completion)
       chunks : <n> {contenthex done reason pec ec}*   (what the runner hands to the callback)
@@ -101,6 +102,9 @@ def handle (toks : List String) : Option String :=
   match toks with
   | "run" :: rest =>
     runTP (do
+      let variant ← nat
+      let fixT := variant % 2 == 1
+      let fixE := variant / 2 % 2 == 1
       let ep ← tok
       let stream := (← nat) != 0
       let raw := (← nat) != 0
@@ -116,18 +120,18 @@ def handle (toks : List String) : Option String :=
         pure (if stream then line 200 ((genStream raw pl cs e).map (showItem showGen))
               else showOnce showGen (genOnce raw pl cs e))
       | "chat" =>
-        pure (if stream then line 200 ((chatStream parse tools cs e).map (showItem showChat))
-              else showOnce showChat (chatOnce parse tools cs e))
+        pure (if stream then line 200 ((chatStreamV fixT parse tools cs e).map (showItem showChat))
+              else showOnce showChat (chatOnceV fixT parse tools cs e))
       | "oachat" =>
-        pure (if stream then line 200 ((oaChatStream usage (chatStream parse tools cs e) false).map showOa)
-              else let ev := oaChatOnce (chatOnce parse tools cs e); line (oaStatus ev) [showOa ev])
+        pure (if stream then line 200 ((oaChatStreamV fixE usage (chatStreamV fixT parse tools cs e)).map showOa)
+              else let ev := oaChatOnce (chatOnceV fixT parse tools cs e); line (oaStatus ev) [showOa ev])
       | "oacmpl" =>
-        pure (if stream then line 200 ((oaCmplStream usage (genStream false pl cs e)).map showOa)
+        pure (if stream then line 200 ((oaCmplStreamV fixE usage (genStream false pl cs e)).map showOa)
               else let ev := oaCmplOnce (genOnce false pl cs e); line (oaStatus ev) [showOa ev])
       | "cgen" =>
         pure (showClient showGen (clientView (if stream then genStream raw pl cs e else onceAsItems (genOnce raw pl cs e))))
       | "cchat" =>
-        pure (showClient showChat (clientView (if stream then chatStream parse tools cs e else onceAsItems (chatOnce parse tools cs e))))
+        pure (showClient showChat (clientView (if stream then chatStreamV fixT parse tools cs e else onceAsItems (chatOnceV fixT parse tools cs e))))
       | _ => failure) rest
   | _ => none
 
